@@ -43,7 +43,7 @@ def history(rng, nt, serial=False):
         nonlocal t
         if long is None:
             long = rng.random() < 0.4
-        t += 0.3 if long else 0.1
+        t += 0.3 if long else 0.09      # two or three short gaps never add up to exactly the 200 ms timeout
         t = round(t + rng.choice([0.0, 0.003, 0.011]), 6)
 
     for _ in range(nt):
@@ -206,7 +206,7 @@ def run(tier, seed, replay=None):
                     "commands and events, unknown frames, 'no frame' reports; gaps 100 or 300 ms), optionally an own send, "
                     "0-3 subscribers joining/leaving; non-trivial = histories with >= 4 reports and at least one delivery")
         byid = {r["id"]: r for r in recs}
-        s0 = recs[2]
+        s0 = recs[min(2, len(recs) - 1)]
         out.samples = [{"driver": s0["driver"], "inputs": s0["inputs"][:8], "subs": s0["subs"], "got": [g[:4] for g in s0["got"]]}]
         out.assumptions = ["timeouts are never exercised at exactly 200 ms", "subscriber join/leave times never coincide with a report",
                            "class of a reported command is judged only for frames the specification's tables name"]
